@@ -842,6 +842,10 @@ class Engine:
         if isinstance(v, AStr):
             if v.is_lit():
                 return len(v.lit()) > 0
+            if len(v.toks) == 1 and v.toks[0][0] == 'fld':
+                return v.toks[0][2] != 'empty'
+            if any(t[0] in ('fld', 'conv', 'ff') and not (t[0] == 'fld' and t[2] == 'empty') for t in v.toks):
+                return True
             raise EngineError('truth of abstract string')
         if isinstance(v, SObj):
             fn, c = self.repo.find_method(v.cls, '__bool__')
@@ -1884,7 +1888,79 @@ class Engine:
             return False
         return self.values_equal(a, b)
 
+    # ------------------------------------------------------------ E3: abstract option strings
+    def mk_fields(self, fields, sep=','):
+        """an option value as the user types it: fields separated by `sep`.
+        fields: list of (value, kind[, text]); kind in int / float / complex / text / empty"""
+        toks = []
+        for k, f in enumerate(fields):
+            if k:
+                toks.append(('lit', sep))
+            toks.append(('fld', f[0], f[1], f[2] if len(f) > 2 else None))
+        return AStr(toks)
+
+    def str_split(self, s, args, kw):
+        sep = args[0].lit() if args else None
+        if sep != ',':
+            raise EngineError('split separator %r not modelled' % sep)
+        parts = [[]]
+        for t in s.toks:
+            if t[0] == 'lit':
+                segs = t[1].split(',')
+                for k, seg in enumerate(segs):
+                    if k:
+                        parts.append([])
+                    if seg:
+                        parts[-1].append(('lit', seg))
+            else:
+                parts[-1].append(t)
+        out = []
+        for p_ in parts:
+            if not p_:
+                out.append(AStr([('fld', None, 'empty', '')]))
+            else:
+                out.append(AStr(p_))
+        return SList([('conc', out)])
+
+    def parse_number(self, s, what):
+        """int() / float() / complex() of an abstract string: accepts exactly the literal grammar
+        of the conversion, returns the denoted value, ValueError otherwise."""
+        if s.is_lit():
+            txt = s.lit()
+            try:
+                if what == 'int':
+                    return int(txt)
+                if what == 'float':
+                    return conc(float(txt))
+                return conc(complex(txt))
+            except ValueError:
+                raise PyRaise('ValueError', ('invalid literal %r' % txt,))
+        toks = [t for t in s.toks if not (t[0] == 'mod')]
+        if len(s.toks) == 1 and s.toks[0][0] == 'mod':
+            return self.parse_number(s.toks[0][2], what)
+        if len(toks) != 1 or toks[0][0] != 'fld':
+            raise EngineError('number conversion of a composite abstract string %r' % (s,))
+        _, value, kind, text = toks[0]
+        ok = {'int': ('int',), 'float': ('int', 'float'), 'complex': ('int', 'float', 'complex')}[what]
+        if kind not in ok:
+            raise PyRaise('ValueError', ('invalid literal for %s(): %s field' % (what, kind),))
+        if what == 'float' and kind == 'int':
+            return SV(term(value, True), 'real') if isinstance(value, SV) else Fraction(value)
+        return value
+
     def str_eq(self, a, b):
+        for x, y in ((a, b), (b, a)):
+            if x.is_lit() and len(y.toks) == 1 and y.toks[0][0] == 'fld':
+                k = y.toks[0]
+                if k[2] == 'text':
+                    return k[3] == x.lit()
+                if k[2] == 'empty':
+                    return x.lit() == ''
+                # a numeric field never equals a non-numeric literal
+                try:
+                    float(x.lit())
+                except ValueError:
+                    return False
         # only symbolic opaque strings ('str' tokens) against literals: undecidable here
         raise EngineError('comparison of abstract strings %r == %r' % (a, b))
 
